@@ -55,7 +55,7 @@ def build(tier, seed):
                     if (k % 3 == 0) or thorough:
                         cases.append({"id": f"mx-{suite:04X}-c{cl}-s{sl}-{mode}", "kind": "matrix", "suite": suite, "cl": cl, "sl": sl, "mode": mode, "v6": k % 2 == 1})
                     k += 1
-    for i in range(20000 if thorough else 700):
+    for i in range(100000 if thorough else 700):
         cases.append({"id": f"rnd-{i}", "kind": "random", "i": i})
 
     def evalfn(case):
